@@ -348,7 +348,12 @@ impl RoutingThread {
             txs: vec![],
             gts: vec![],
         };
-        for i in (last_shared_ancestor + 1)..=latest_block_id {
+        // the block ring only holds the latest `ring_buffer_size` ids, nothing below can be served
+        let first_id = std::cmp::max(
+            last_shared_ancestor.saturating_add(1),
+            latest_block_id.saturating_sub(blockchain.blockring.get_ring_buffer_size()),
+        );
+        for i in first_id..=latest_block_id {
             if let Some(hash) = blockchain
                 .blockring
                 .get_longest_chain_block_hash_at_block_id(i)
@@ -454,7 +459,13 @@ impl RoutingThread {
             blockchain.blockring.get_latest_block_id()
         );
 
-        for i in last_shared_ancestor..(blockchain.blockring.get_latest_block_id() + 1) {
+        // the block ring only holds the latest `ring_buffer_size` ids, nothing below can be served
+        let latest_block_id = blockchain.blockring.get_latest_block_id();
+        let first_id = std::cmp::max(
+            last_shared_ancestor,
+            latest_block_id.saturating_sub(blockchain.blockring.get_ring_buffer_size()),
+        );
+        for i in first_id..=latest_block_id {
             if let Some(block_hash) = blockchain
                 .blockring
                 .get_longest_chain_block_hash_at_block_id(i)
